@@ -152,6 +152,8 @@ func c18Types() []c18Type {
 		for _, v := range []string{"x", ""} {
 			str = append(str, []string{"SETNX", k, v}, []string{"GETSET", k, v}, []string{"APPEND", k, v})
 		}
+		// SET with the options the framework parses
+		str = append(str, []string{"SET", k, "n", "NX"}, []string{"SET", k, "u", "XX"}, []string{"SET", k, "g", "GET"}, []string{"SET", k, "h", "XX", "GET"}, []string{"SET", k, "i", "NX", "GET"})
 		str = append(str, []string{"GET", k}, []string{"STRLEN", k}, []string{"INCR", k}, []string{"DECRBY", k, "1"}, []string{"DECRBY", k, "-1"})
 		for _, f := range []string{"a", "b"} {
 			for _, v := range []string{"x", "y\r\nz"} {
